@@ -45,9 +45,12 @@ func (r *Recorder) LogLocked(e Event) {
 	r.logLocked(e)
 }
 
+var procStart = time.Now()
+
 func (r *Recorder) logLocked(e Event) {
 	r.seq++
 	e["seq"] = r.seq
+	e["t"] = time.Since(procStart).Milliseconds()
 	r.buf = append(r.buf, e)
 }
 
@@ -141,6 +144,9 @@ func curGID() int64 {
 	id, _ := strconv.ParseInt(string(f[1]), 10, 64)
 	return id
 }
+
+// CurGID returns the id of the calling goroutine.
+func CurGID() int64 { return curGID() }
 
 // creatorGID returns the id of the goroutine that created the current one (0 if unknown).
 func creatorGID() int64 {
@@ -463,7 +469,6 @@ func (s *Sched) Retire(waitFor []string, timeout time.Duration) []string {
 		}
 	}
 }
-
 
 // ProcNameFor returns the process name of the calling goroutine, identifying it by label if new.
 func (s *Sched) ProcNameFor(label string) string {
